@@ -1,12 +1,14 @@
 (* Model/Engines.v -- the uniform entry point used by the correspondence check:
    [run engine case] for the models, [oracle engine case observation] for the
    property oracles (Spec side).  Engine numbers are listed in tools/engines.py. *)
-From MV Require Import Base.Prelude Model.Topic Spec.SpecTopic Model.TopicOracle.
+From MV Require Import Base.Prelude Model.Topic Spec.SpecTopic Model.TopicOracle Model.EnginesV3 Model.EnginesV5.
 
 Definition run (e : N) (c : list (list N)) : list (list N) :=
   match e with
   | 1 => run_topic c
-  | _ => [[98]]
+  | _ => if (10 <=? e) && (e <? 20) then run_v3 e c
+         else if (20 <=? e) && (e <? 30) then run_v5 e c
+         else [[98]]
   end.
 
 (* [oracle e c o]: o is the observation the implementation produced on case c;
@@ -14,7 +16,9 @@ Definition run (e : N) (c : list (list N)) : list (list N) :=
 Definition oracle (e : N) (c : list (list N)) (o : list (list N)) : list (list N) :=
   match e with
   | 1 => oracle_topic c o
-  | _ => [[98]]
+  | _ => if (10 <=? e) && (e <? 20) then oracle_v3 e c o
+         else if (20 <=? e) && (e <? 30) then oracle_v5 e c o
+         else [[98]]
   end.
 
 Fixpoint nums_eqb (a b : list N) : bool :=
